@@ -349,6 +349,23 @@ _BINARY = {"add": "add", "subtract": "sub", "multiply": "mul", "divide": "div", 
 def _handle_out(interp, res, out, st, node):
     if out is None or out.kind == "none":
         return res
+    cond_buf = None
+    if out.kind == "maybe" and out.items and out.items[0].kind == "arr":
+        cond_buf = (out.items[0], out.term.args[0] if isinstance(out.term, Term) and out.term.op == "phi" and out.term.args else unk("cond"))
+    elif out.kind in ("unk", "maybe") and isinstance(out.term, Term) and out.term.op == "phi" and len(out.term.args) == 3 and hasattr(interp, "vtab"):
+        c_, a_, b_ = out.term.args
+        none_ = const(None)
+        if b_ == none_ and isinstance(a_, Term) and interp.vtab.get(a_) is not None and interp.vtab.get(a_).kind == "arr":
+            cond_buf = (interp.vtab.get(a_), c_)
+        elif a_ == none_ and isinstance(b_, Term) and interp.vtab.get(b_) is not None and interp.vtab.get(b_).kind == "arr":
+            cond_buf = (interp.vtab.get(b_), T("not", c_))
+    if cond_buf is not None:
+        # out=(buf if cond else None): the buffer is overwritten on the paths where cond holds
+        base, cond = cond_buf
+        interp.event("mutate", node, st, how="out=", target=base, value=res, targetsrc="out")
+        newb = res.replace(term=T("phi", cond, res.term, base.term), orig=base.orig, loc=base.loc, kind="arr", shape=base.shape)
+        interp.rebind(base, newb, st)
+        return res
     interp.event("mutate", node, st, how="out=", target=out, value=res, targetsrc="out")
     new = res.replace(orig=out.orig, loc=out.loc, kind="arr")
     interp.rebind(out, new, st)
@@ -1921,7 +1938,18 @@ def ext_construct(interp, qual, args, kw, st, node):
             return r
     last = qual.rsplit(".", 1)[-1]
     if last == "Parallel":
+        pv, bv = kw.get("prefer"), kw.get("backend")
+        threads = any(v is not None and v.has_const and v.const in ("threads", "threading") for v in (pv, bv)) or (kw.get("require") is not None and kw["require"].has_const and kw["require"].const == "sharedmem")
+        mark = len(interp.events)
+        live = set(st.heap.keys())
+
         def run(interp2, a, k, st2, node2):
+            if threads:
+                # tasks of a thread pool share every object they capture: a task that fits / writes into such an object
+                # races with the other tasks (process workers get private copies)
+                shared = [e for e in interp2.events[mark:] if e["kind"] == "mutate-object" or (e["kind"] == "mutate" and not any(o_ == FRESH for o_ in (e["target"].orig or ()))) or (e["kind"] == "setattr" and getattr(e.get("obj"), "id", None) in live)]
+                if shared:
+                    interp2.event("shape-conflict", node2, st2, what="race: tasks run by a thread pool modify an object they share (" + str(shared[0].get("src"))[:60] + ")", a="Parallel(threads)", b=len(shared))
             return a[0]
 
         return V("func", T("Parallel"), func=("builtin", run, "Parallel"))
@@ -2254,6 +2282,27 @@ def ext_attribute(interp, base, name, st, node):
     return V("func", T("method", base.term, name), func=("extmethod", base, name))
 
 
+def _built_with(t, names, value):
+    """does the constructor call inside the estimator's term carry keyword name=value?"""
+    seen = set()
+    stack = [t]
+    while stack:
+        x = stack.pop()
+        if isinstance(x, tuple):
+            if len(x) == 2 and isinstance(x[0], str) and x[0] in names and isinstance(x[1], Term) and x[1].op == "const" and x[1].args[0] is value:
+                return True
+            stack.extend(x)
+            continue
+        if not isinstance(x, Term) or id(x) in seen:
+            continue
+        seen.add(id(x))
+        if x.op == "kw" and len(x.args) == 2 and x.args[0] in names and isinstance(x.args[1], Term) and x.args[1].op == "const" and x.args[1].args[0] is value:
+            return True
+        if x.op in ("new", "clone", "after"):
+            stack.extend(x.args)
+    return False
+
+
 def ext_method(interp, recv, name, args, kw, st, node):
     hook = interp.config.get("method_hook")
     if hook is not None:
@@ -2316,6 +2365,12 @@ def ext_method(interp, recv, name, args, kw, st, node):
         new = V("ext", T("after", recv.term, name, tuple(a.term for a in args), kwterms(kw)), extra=info, labels=labels, orig=recv.orig, loc=recv.loc)
         interp.event("mutate-object", node, st, target=recv, method=name, args=list(args))
         interp.rebind(recv, new, st)
+        if name in ("fit", "fit_transform", "partial_fit") and args and args[0].kind == "arr" and _built_with(recv.term, ("copy_X", "copy"), False):
+            # an sklearn estimator built with copy_X=False / copy=False may centre / scale its training matrix in place:
+            # whatever reads that matrix afterwards does not read the data that was passed in
+            x_ = args[0]
+            interp.event("mutate", node, st, how="copy_X=False", target=x_, value=None, targetsrc="training matrix of an estimator built with copy_X=False")
+            interp.rebind(x_, x_.replace(term=T("overwritten", x_.term, recv.term)), st)
         # rebind only swaps identical bindings; unknown-kind receivers are handled the same way
         if name in ("fit", "partial_fit", "set_params"):
             return new
